@@ -344,6 +344,7 @@ pub fn world_cfg(id: &str, mode: Mode) -> Cfg {
         strict_loopback: false,
         shallow_clone: false,
         clone_panics: 0,
+        slot_consume: true,
         allow_consume: id == "C09",
         clone_reentrant: false,
         default_ctor: 0,
